@@ -21,6 +21,7 @@ import (
 	"encoding/binary"
 	"fmt"
 	"io"
+	"math"
 	"sort"
 	"sync"
 	"sync/atomic"
@@ -608,7 +609,7 @@ func (i *Snapshot) readFromVersion1(br *bufio.Reader) (int64, error) {
 	}
 	bytesRead += int64(sz)
 
-	for j := 0; j < int(numSegments); j++ {
+	for j := uint64(0); j < numSegments; j++ {
 		segmentBytesRead, ss, err := i.readSegmentSnapshot(br)
 		if err != nil {
 			return bytesRead, err
@@ -671,12 +672,12 @@ func (i *Snapshot) readSegmentSnapshot(br *bufio.Reader) (bytesRead int64, ss *s
 	bytesRead += int64(sz)
 
 	if delLen > 0 {
-		deletedBytes := make([]byte, int(delLen))
-		sz, err = io.ReadFull(br, deletedBytes)
+		var deletedBytes []byte
+		deletedBytes, err = readExactly(br, delLen)
+		bytesRead += int64(len(deletedBytes))
 		if err != nil {
 			return bytesRead, nil, fmt.Errorf("error reading snapshot %d: %w", i.epoch, err)
 		}
-		bytesRead += int64(sz)
 
 		rr := bytes.NewReader(deletedBytes)
 		deletedBitmap := roaring.NewBitmap()
@@ -704,13 +705,26 @@ func readVarLenString(r *bufio.Reader) (n int, str string, err error) {
 	}
 	n += sz
 
-	strBytes := make([]byte, strLen)
-	sz, err = r.Read(strBytes)
+	strBytes, err := readExactly(r, strLen)
+	n += len(strBytes)
 	if err != nil {
 		return n, "", err
 	}
-	n += sz
 	return n, string(strBytes), nil
+}
+
+// readExactly reads n bytes from r.  The length comes from the file and has
+// not been verified yet, so memory is only allocated as data actually arrives.
+func readExactly(r io.Reader, n uint64) ([]byte, error) {
+	if n > math.MaxInt64 {
+		return nil, io.ErrUnexpectedEOF
+	}
+	var buf bytes.Buffer
+	_, err := io.CopyN(&buf, r, int64(n))
+	if err == io.EOF {
+		err = io.ErrUnexpectedEOF
+	}
+	return buf.Bytes(), err
 }
 
 func (i *Snapshot) DocumentValueReader(fields []string) (
